@@ -9,7 +9,14 @@
 // For every call (randomness and rounds drawn from small pools so that keys repeat and collide in all
 // but one component): size == configured group size, pairwise distinct keys, subset of the shard's
 // eligible list of that epoch, group[0] == first key of GetConsensusValidatorsPublicKeys, A == B,
-// and A asked again (warm cache) == first answer. Each case ends with a concurrent burst: 4-8 goroutines ask A
+// and A asked again (warm cache) == first answer. Half of the second prepares are delivered while a
+// ComputeConsensusGroup call of A for that epoch is in flight (the harness-supplied cache decorator runs the
+// prepare at the call's cache lookup, where the coordinator holds no lock): the call must return the
+// group of the first block's configuration or the group of the surviving one, and the same call asked
+// again afterwards must equal the reference. A quarter of the coordinators have shuffler minimums below
+// the group sizes; there the second block may lack records, so that the coordinator has to refuse it for
+// the already known epoch: the eligible lists A reports must then still be those of a coordinator that
+// was only given the first block (B is made that coordinator), and so must the groups. Each case ends with a concurrent burst: 4-8 goroutines ask A
 // for groups of one shard/epoch with fresh randomness; every answer must equal B's sequential answer.
 package main
 
@@ -25,25 +32,6 @@ import (
 	sg "verif/internal/shufflegen"
 	"verif/internal/vk"
 )
-
-type countingCache struct {
-	inner sharding.Cacher
-	hits  int64
-	puts  int64
-}
-
-func (c *countingCache) Clear() { c.inner.Clear() }
-func (c *countingCache) Put(k []byte, v interface{}, s int) bool {
-	atomic.AddInt64(&c.puts, 1)
-	return c.inner.Put(k, v, s)
-}
-func (c *countingCache) Get(k []byte) (interface{}, bool) {
-	v, ok := c.inner.Get(k)
-	if ok {
-		atomic.AddInt64(&c.hits, 1)
-	}
-	return v, ok
-}
 
 func groupKeys(g []sharding.Validator) []string {
 	out := make([]string, len(g))
@@ -68,14 +56,23 @@ func eq(a, b []string) bool {
 func main() {
 	_ = logger.SetLogLevel("*:NONE")
 	r := vk.Start("C15")
-	r.Rule("coordinators with 1-3 shards + metachain, group sizes 1-7, eligible sizes from the group size to 3x the group size, waiting 0-4, plain or rater variant (chance table with minimum 1/2/5, entries below the minimum, and very skewed entries 200-2000), sha256 or blake2b, LRU cache size 1/3/50/10000; 0-3 real epoch changes, half of them prepared twice on A (a replaced epoch start block with other validator info and randomness, groups computed in between and asked again afterwards), the last one sometimes without EpochStartAction; a concurrent burst; finally a new instance over the same real boot storage unit restored with LoadState(saved key) and compared on 16-25 calls; per case 40-90 sequential calls with randomness from a pool of 3 values (1-40 bytes, may contain '_' and digits), rounds from a pool of 4, every shard, every known epoch; every call is non-trivial; distinct = distinct (rater, skewed, shard kind, group size, eligible size, epoch kind, cache state)")
-	r.Assume("randomness is non-empty (empty randomness is rejected by the coordinator)", "the eligible list of the start epoch is the harness's own copy of the constructor input; for the epoch created by the epoch change it is what GetAllEligibleValidatorsPublicKeys reports")
+	r.Rule("coordinators with 1-3 shards + metachain, group sizes 1-7, eligible sizes from the group size to 3x the group size, waiting 0-4, plain or rater variant (chance table with minimum 1/2/5, entries below the minimum, and very skewed entries 200-2000), sha256 or blake2b, LRU cache size 1/3/50/10000; 0-3 real epoch changes, half of them prepared twice on A (a replaced epoch start block with other validator info and randomness, groups computed in between and asked again afterwards; half of the second prepares run while a call for that epoch is held at its cache lookup; in the quarter of the coordinators whose shuffler minimums are below the group sizes two thirds of the second blocks lack records of 1+ shards and must be refused), the last one sometimes without EpochStartAction; a concurrent burst; finally a new instance over the same real boot storage unit restored with LoadState(saved key) and compared on 16-25 calls; per case 40-90 sequential calls with randomness from a pool of 3 values (1-40 bytes, may contain '_' and digits), rounds from a pool of 4, every shard, every known epoch; every call is non-trivial; distinct = distinct (rater, skewed, shard kind, group size, eligible size, epoch kind, cache state)")
+	r.Assume("randomness is non-empty (empty randomness is rejected by the coordinator)", "a coordinator that refuses an epoch start block for an epoch it already knows keeps the configuration it had for that epoch (reference: a coordinator that was never given the refused block)", "the eligible list of the start epoch is the harness's own copy of the constructor input; for the epoch created by the epoch change it is what GetAllEligibleValidatorsPublicKeys reports")
 	r.MinShapes(60)
 	n := r.N(1500, 36000)
 
 	r.Parallel(n, func(c *vk.Case) {
 		rng := c.Rng
 		spec := sg.GenCoord(rng, sg.CoordOpts{MaxShards: 3, MaxCons: 7, MaxEpoch: 3, EpochsAhead: 2})
+		// a quarter of the coordinators have a shuffler whose minimum nodes per shard are below the group
+		// sizes: there an epoch start block that lacks records makes lists the coordinator has to refuse
+		lowMin := false
+		if rng.Chance(1, 4) {
+			lowMin = lowerShufflerMinimums(spec, rng)
+		}
+		if lowMin {
+			r.Count("cases_with_shuffler_minimum_below_group_size", 1)
+		}
 		size := []int{1, 3, 50, 10000}[rng.Intn(4)]
 		lru, err := lrucache.NewCache(size)
 		if err != nil {
@@ -274,9 +271,13 @@ func main() {
 			}
 			newEpoch := curEpoch + 1
 			var between []pending
+			var infos1 []sg.Info
+			var rand1 []byte
+			var seed1 uint64
 			if rng.Chance(1, 2) {
-				infos1 := sg.GenInfos(spec, prev, nil, rng)
-				a.EpochStartPrepare(sg.Header(newEpoch, rng.Bytes(32)), sg.MakeBody(infos1, rng.Fork()))
+				infos1 = sg.GenInfos(spec, prev, nil, rng)
+				rand1, seed1 = rng.Bytes(32), rng.U64()
+				a.EpochStartPrepare(sg.Header(newEpoch, rand1), sg.MakeBody(infos1, vk.NewRand(seed1)))
 				if _, errCfg := sg.ReadConfig(a, newEpoch); errCfg == nil {
 					preparedTwice[newEpoch] = true
 					r.Count("epochs_prepared_twice", 1)
@@ -294,21 +295,169 @@ func main() {
 				}
 			}
 			infos := sg.GenInfos(spec, prev, nil, rng)
-			infosDump = append(infosDump, fmt.Sprintf("--- epoch %d (final block) ---", newEpoch))
+			// in coordinators with low shuffler minimums the block that replaces the first one may lack records
+			var cutShards []uint32
+			if preparedTwice[newEpoch] && lowMin && rng.Chance(2, 3) {
+				infos, cutShards = truncateInfos(spec, infos, rng)
+				if len(cutShards) > 0 {
+					r.Count("second_blocks_lacking_records", 1)
+				}
+			}
+			blockLabel := "final block"
+			if len(cutShards) > 0 {
+				blockLabel = fmt.Sprintf("second block, records of shards %v cut below the group size", cutShards)
+			}
+			infosDump = append(infosDump, fmt.Sprintf("--- epoch %d (%s) ---", newEpoch, blockLabel))
 			infosDump = append(infosDump, sg.DumpInfos(infos)...)
 			seed := rng.U64()
 			prevRand := rng.Bytes(32)
 			hdr := sg.Header(newEpoch, prevRand)
-			a.EpochStartPrepare(hdr, sg.MakeBody(infos, vk.NewRand(seed)))
+			deliverToA := func() { a.EpochStartPrepare(hdr, sg.MakeBody(infos, vk.NewRand(seed))) }
+
+			// half of the second prepares arrive while a ComputeConsensusGroup call for that epoch is in flight:
+			// the call is held at its cache lookup (no coordinator lock is held there) until the prepare is over.
+			// The same call was answered just before (configuration of the first block); its answer is compared
+			// further down with that and with the reference's answer under the surviving configuration.
+			type overlapped struct {
+				q          pending
+				before     []string
+				during     []string
+				err        error
+				panicked   bool
+				panicVal   string
+				panicFrame string
+			}
+			var ov *overlapped
+			if preparedTwice[newEpoch] && rng.Chance(1, 2) {
+				ov = &overlapped{q: pending{rnd: rng.Bytes(9 + rng.Intn(24)), round: rounds[rng.Intn(len(rounds))], shard: shards[rng.Intn(len(shards))]}}
+				cfg1, errCfg := sg.ReadConfig(a, newEpoch)
+				gBefore, errG := a.ComputeConsensusGroup(append([]byte(nil), ov.q.rnd...), ov.q.round, ov.q.shard, newEpoch)
+				if errCfg != nil || errG != nil {
+					r.Violation(c.Idx, "error-on-valid-input", fmt.Sprintf("ComputeConsensusGroup / config for the prepared epoch %d: %v %v", newEpoch, errG, errCfg), map[string]interface{}{"spec": spec.Dump(), "firstBlockInfos": sg.DumpInfos(infos1)})
+					return
+				}
+				ov.before = groupKeys(gBefore)
+				r.Eval(1)
+				if bad := wellFormed(ov.before, spec.Cons(ov.q.shard), cfg1.Eligible[ov.q.shard]); bad != "" {
+					r.Violation(c.Idx, "malformed-group under-first-block", fmt.Sprintf("group for epoch %d prepared from the first block: %s", newEpoch, bad), map[string]interface{}{"spec": spec.Dump(), "firstBlockInfos": sg.DumpInfos(infos1), "group": sg.HexList(ov.before), "eligible": sg.HexList(cfg1.Eligible[ov.q.shard])})
+					return
+				}
+				cache.arm(deliverToA)
+				var gDuring []sharding.Validator
+				panicked, val, stack := vk.Guard(func() {
+					gDuring, ov.err = a.ComputeConsensusGroup(append([]byte(nil), ov.q.rnd...), ov.q.round, ov.q.shard, newEpoch)
+				})
+				cache.waitAction()
+				if cache.disarm() {
+					// the call never looked the cache up: deliver the block now
+					r.Count("second_prepare_not_taken_by_the_call_in_flight", 1)
+					deliverToA()
+				} else {
+					r.Count("second_prepares_during_a_call_in_flight", 1)
+				}
+				if panicked {
+					ov.panicked, ov.panicVal, ov.panicFrame = true, fmt.Sprint(val), vk.TopFrame(stack)
+				} else if ov.err == nil {
+					ov.during = groupKeys(gDuring)
+				}
+			} else {
+				deliverToA()
+			}
 			b.EpochStartPrepare(sg.Header(newEpoch, prevRand), sg.MakeBody(infos, vk.NewRand(seed)))
 			cfg, err := sg.ReadConfig(b, newEpoch)
+			survivor := "second"
+			if err != nil && preparedTwice[newEpoch] {
+				// the reference refuses the block; A knows the epoch from the first block, which is what a
+				// coordinator that was only ever given the first block has: make B that coordinator
+				b.EpochStartPrepare(sg.Header(newEpoch, rand1), sg.MakeBody(infos1, vk.NewRand(seed1)))
+				cfg, err = sg.ReadConfig(b, newEpoch)
+				if err != nil {
+					r.Violation(c.Idx, "coordinators-disagree on-accepting-a-block", fmt.Sprintf("A installed epoch %d from the first block, the reference coordinator refuses the same block", newEpoch), map[string]interface{}{"spec": spec.Dump(), "firstBlockInfos": sg.DumpInfos(infos1)})
+					return
+				}
+				survivor = "first"
+				r.Count("second_prepares_refused_on_a_known_epoch", 1)
+				infosDump = append(infosDump, fmt.Sprintf("--- epoch %d (first block; the second one is refused by a coordinator that does not know the epoch) ---", newEpoch))
+				infosDump = append(infosDump, sg.DumpInfos(infos1)...)
+			}
 			if err != nil {
 				r.Count("epoch_change_not_installed", 1)
 				break
 			}
+			if len(cfg.Eligible) != len(spec.Shards()) {
+				// a block without any eligible record of a shard changes the number of shards of the epoch
+				r.Count("epoch_installed_with_other_shard_count", 1)
+				break
+			}
+			// quiescent: what A reports for the epoch is what the reference reports
+			cfgA, errA := sg.ReadConfig(a, newEpoch)
+			r.Eval(1)
+			if errA != nil || !sameLists(cfgA.Eligible, cfg.Eligible) {
+				key := "eligible-lists-differ-from-reference"
+				if survivor == "first" {
+					key = "eligible-lists-changed-by-refused-prepare"
+				}
+				det := map[string]interface{}{"spec": spec.Dump(), "epoch": newEpoch, "epochChangeInfos": infosDump, "survivingBlock": survivor, "referenceConfig": cfg.Dump()}
+				if errA == nil {
+					det["configOfA"] = cfgA.Dump()
+				}
+				r.Violation(c.Idx, key, fmt.Sprintf("epoch %d: the eligible lists A reports (err=%v) are not those of a coordinator that was given the %s block only", newEpoch, errA, survivor), det)
+				return
+			}
 			r.Count("epoch_changes", 1)
 			eligible[newEpoch] = cfg.Eligible
 			epochs = append(epochs, newEpoch)
+			if ov != nil {
+				det := map[string]interface{}{"spec": spec.Dump(), "epoch": newEpoch, "randomness": vk.Hex(ov.q.rnd), "round": ov.q.round, "shard": sg.ShardName(ov.q.shard), "cacheSize": size, "firstBlockInfos": sg.DumpInfos(infos1), "epochChangeInfos": infosDump, "survivingBlock": survivor, "groupUnderFirstBlock": sg.HexList(ov.before)}
+				r.Eval(1)
+				if ov.panicked {
+					det["panic"] = ov.panicVal
+					r.Violation(c.Idx, "panic mode=call-overlapping-second-prepare", fmt.Sprintf("ComputeConsensusGroup panicked while epoch %d was prepared again: %s at %s", newEpoch, ov.panicVal, ov.panicFrame), det)
+					return
+				}
+				if ov.err != nil {
+					r.Violation(c.Idx, "error-on-valid-input mode=call-overlapping-second-prepare", fmt.Sprintf("ComputeConsensusGroup while epoch %d was prepared again: %v", newEpoch, ov.err), det)
+					return
+				}
+				gRef, errRef := b.ComputeConsensusGroup(append([]byte(nil), ov.q.rnd...), ov.q.round, ov.q.shard, newEpoch)
+				if errRef != nil {
+					r.Violation(c.Idx, "error-on-valid-input", "coordinator B: "+errRef.Error(), det)
+					return
+				}
+				after := groupKeys(gRef)
+				det["groupDuringSecondPrepare"], det["groupOfReference"] = sg.HexList(ov.during), sg.HexList(after)
+				isOld, isNew := eq(ov.during, ov.before), eq(ov.during, after)
+				switch {
+				case isOld && isNew:
+					r.Count("overlapping_call_same_group_under_both_blocks", 1)
+				case isOld:
+					r.Count("overlapping_call_answered_from_first_block", 1)
+				case isNew:
+					r.Count("overlapping_call_answered_from_surviving_block", 1)
+				default:
+					r.Violation(c.Idx, "group-of-neither-configuration mode=call-overlapping-second-prepare", fmt.Sprintf("a group computed while epoch %d was prepared again is neither the group of the first block's configuration nor the group of the surviving one", newEpoch), det)
+					return
+				}
+				// quiescent: the same call once more
+				gAgain, errAgain := a.ComputeConsensusGroup(append([]byte(nil), ov.q.rnd...), ov.q.round, ov.q.shard, newEpoch)
+				r.Eval(1)
+				if errAgain != nil {
+					r.Violation(c.Idx, "error-on-valid-input", "after the second prepare: "+errAgain.Error(), det)
+					return
+				}
+				if again := groupKeys(gAgain); !eq(again, after) {
+					det["groupAskedAgain"] = sg.HexList(again)
+					key := "coordinators-disagree after-call-overlapping-second-prepare"
+					if eq(again, ov.before) {
+						key = "stale-group-cached-by-call-overlapping-second-prepare"
+					}
+					r.Violation(c.Idx, key, fmt.Sprintf("after epoch %d was prepared again A answers a call, that was in flight during the prepare, differently from the reference", newEpoch), det)
+					if key != "stale-group-cached-by-call-overlapping-second-prepare" {
+						return
+					}
+					// the stale entry is keyed by a randomness that is never asked again: the case goes on
+				}
+			}
 			// the prepared epoch can be asked for before EpochStartAction: first the very calls A already
 			// answered under the replaced block, then random ones
 			for _, q := range between {
@@ -480,6 +629,9 @@ func main() {
 		r.Count("cache_hits_on_A", int(atomic.LoadInt64(&cache.hits)))
 		r.Count("cache_puts_on_A", int(atomic.LoadInt64(&cache.puts)))
 	})
+	if r.ReplayCase < 0 && (r.Counter("second_prepares_during_a_call_in_flight") == 0 || r.Counter("second_prepares_refused_on_a_known_epoch") == 0 || r.Counter("overlapping_call_answered_from_first_block")+r.Counter("overlapping_call_answered_from_surviving_block") == 0) {
+		r.Inconclusive("no second prepare overlapped a call with distinguishable groups, or none was refused on a known epoch")
+	}
 	if r.Counter("cache_hits_on_A") == 0 && r.ReplayCase < 0 {
 		r.Inconclusive("the group cache was never hit")
 	}
